@@ -283,4 +283,5 @@ theorem pwrite_fds (s : State) (fd : Int) (bs : Bytes) (off : Int) : (s.pwrite f
           · rfl
           · split
             · rfl
-            · split <;> rfl
+            · simp only
+              split <;> split <;> rfl
